@@ -75,6 +75,8 @@ type Exec struct {
 	afterNames    map[string]bool
 	jsonFreshUsed bool
 	needsLex      int
+	havocDefaults map[string]bool
+	keepGhost     bool
 	argCells      map[string]*Cell
 	mkstrSeen     map[string]bool
 	zarrSeen      map[string]bool
@@ -100,6 +102,11 @@ type iterInfo struct {
 	mapR *Term
 	kind string // map, string
 	str  *Term
+	// map iteration count (ghost): number of keys yielded so far; related to len(map) as long
+	// as the map's presence array is the one the iteration started with
+	cnt      *Cell
+	present0 string
+	len0     *Term
 }
 
 func NewExec(prog *ssa.Program, db *SpecDB, fset *token.FileSet) *Exec {
@@ -1098,6 +1105,7 @@ func labelOr(a, b string) string {
 
 func (x *Exec) havocAll(st *State) {
 	x.havocN++
+	st.havocID = x.havocN
 	epoch := x.allocEpoch()
 	for k, s := range x.heapSort {
 		nh := x.ctx.Fresh("Hv_"+shortKey(k), s)
@@ -1260,7 +1268,7 @@ func (x *Exec) attribute(fr *Frame, kind, label string) []string {
 var safetyKinds = map[string]bool{"nil": true, "index": true, "slice": true, "nilmap": true, "nilfunc": true, "assert": true, "panic": true, "div": true, "call.pre": true, "conv": true, "makeslice": true, "overflow": true}
 
 // lockKinds: lock-discipline obligations (monitors).
-var lockKinds = map[string]bool{"lock": true, "monitor": true}
+var lockKinds = map[string]bool{"lock": true, "monitor": true, "sync": true}
 
 // propsFor: a contract's property list may qualify an entry as "Cxx:safety" - only the
 // no-panic obligations of the function count towards that property.
